@@ -33,6 +33,7 @@ type Scenario struct {
 	Choices     []int          `json:"choices,omitempty"`
 	File        *FileSpec      `json:"file,omitempty"`
 	Ez          *EzSpec        `json:"ez,omitempty"`
+	FB          *FileBlankSpec `json:"file_blank,omitempty"`
 	Stream      *StreamSpec    `json:"stream,omitempty"`
 	Wrap        *WrapSpec      `json:"wrap,omitempty"`
 	Plain       *PlainSpec     `json:"plain,omitempty"`
